@@ -227,7 +227,8 @@ impl FromStr for HitSoundType {
     type Err = ParseHitSoundTypeError;
 
     fn from_str(s: &str) -> Result<Self, Self::Err> {
-        s.parse::<i32>()
+        s.trim()
+            .parse::<i32>()
             .map(|n| Self((n & 0b1111_1111) as u8))
             .map_err(ParseHitSoundTypeError)
     }
